@@ -17,7 +17,7 @@ import (
 // (number of yields delivered so far, last received value) to a segment: the effects the
 // segment logs and then either the value it yields or the result it completes with.
 type g9 struct {
-	Shape string // chain | bind | for | loop
+	Shape string // chain | bind | mixed | for | loop | forret | whileret | loopret
 	N     int    // yields (ignored by loop: infinite)
 	Echo  int    // 1: yielded values and result depend on the received value
 	Ret   int    // 0: plain Return(); otherwise ReturnValue(Ret + Echo*recv)
@@ -75,6 +75,28 @@ func (g g9) segment(pos, recv int) (effects []string, yields bool, val int) {
 			effects = append(effects, "start")
 		} else {
 			effects = append(effects, fmt.Sprintf("k%d(%d)", pos-1, recv))
+		}
+		return effects, true, 10*(pos+1) + r
+	case "forret", "whileret": // the return is raised inside the loop body, before the yield of iteration N
+		if pos == 0 {
+			effects = append(effects, "start", "cond")
+		} else if g.Shape == "forret" {
+			effects = append(effects, fmt.Sprintf("k%d(%d)", pos-1, recv), "post", "cond")
+		} else {
+			effects = append(effects, fmt.Sprintf("k%d(%d)", pos-1, recv), "cond")
+		}
+		if pos == g.N {
+			return effects, false, g.result(r)
+		}
+		return effects, true, 10*(pos+1) + r
+	case "loopret": // the return is raised inside the body of Loop, after the N-th yield was answered (N >= 1)
+		if pos == 0 {
+			effects = append(effects, "start")
+		} else {
+			effects = append(effects, fmt.Sprintf("k%d(%d)", pos-1, recv))
+		}
+		if pos == g.N {
+			return effects, false, g.result(r)
 		}
 		return effects, true, 10*(pos+1) + r
 	}
@@ -157,6 +179,49 @@ func (g g9) build(log *[]string) seq.Seq[int] {
 					})),
 				seq.Delay[int](func() seq.Seq[int] { eff("after"); return ret(0) }),
 			)
+		})
+	case "forret", "whileret":
+		return seq.Delay[int](func() seq.Seq[int] {
+			eff("start")
+			i, last := 0, 0
+			body := seq.Delay[int](func() seq.Seq[int] {
+				if i == g.N {
+					return ret(g.Echo * last)
+				}
+				return seq.BindRecv[int](10*(i+1)+g.Echo*last, func(r int) seq.Seq[int] {
+					eff(fmt.Sprintf("k%d(%d)", i, r))
+					last = r
+					if g.Shape == "whileret" {
+						i++
+					}
+					return seq.Normal[int]()
+				})
+			})
+			cond := func() bool { eff("cond"); return i < 99 }
+			var loop seq.Seq[int]
+			if g.Shape == "forret" {
+				loop = seq.For[int](cond, func() { eff("post"); i++ }, body)
+			} else {
+				loop = seq.While[int](cond, body)
+			}
+			// the value returned through the loop must also pass the Combine around it
+			return seq.Combine[int](loop, seq.Delay[int](func() seq.Seq[int] { eff("after"); return seq.ReturnValue[int](-1) }))
+		})
+	case "loopret":
+		return seq.Delay[int](func() seq.Seq[int] {
+			eff("start")
+			i, last := 0, 0
+			return seq.Loop[int](seq.Delay[int](func() seq.Seq[int] {
+				return seq.BindRecv[int](10*(i+1)+g.Echo*last, func(r int) seq.Seq[int] {
+					eff(fmt.Sprintf("k%d(%d)", i, r))
+					last = r
+					i++
+					if i == g.N {
+						return ret(g.Echo * r)
+					}
+					return seq.Normal[int]()
+				})
+			}))
 		})
 	case "loop":
 		return seq.Delay[int](func() seq.Seq[int] {
@@ -290,6 +355,10 @@ func C09(tier string) *core.Report {
 			for _, ret := range []int{0, 500} {
 				gens = append(gens, g9{"chain", n, e, ret})
 				gens = append(gens, g9{"for", n, e, ret})
+				gens = append(gens, g9{"forret", n, e, ret}, g9{"whileret", n, e, ret})
+				if n >= 1 {
+					gens = append(gens, g9{"loopret", n, e, ret})
+				}
 			}
 		}
 		gens = append(gens, g9{"bind", n, 0, 0}, g9{"bind", n, 0, 500})
